@@ -617,7 +617,7 @@ const USE_SCRIPTS: &[(&str, [u8; 4], &[u32])] = &[
 fn use_font(tag: [u8; 4], letters: &[u32], shared: bool) -> Vec<u8> {
     use crate::fontgen::*;
     let n = letters.len() as u16;
-    let mut spec = FontSpec::basic(1 + 5 * n);
+    let mut spec = FontSpec::basic(2 + 5 * n);
     let mut cmap: Vec<(u32, u16)> = letters.iter().enumerate().map(|(i, c)| (*c, 1 + i as u16)).collect();
     cmap.sort();
     spec.cmap = cmap;
@@ -632,6 +632,13 @@ fn use_font(tag: [u8; 4], letters: &[u32], shared: bool) -> Vec<u8> {
         (vec![(*b"fina", vec![3]), (*b"init", vec![1]), (*b"isol", vec![0]), (*b"medi", vec![2])],
          vec![single(plain.clone(), form(0)), single(plain.clone(), form(1)), single(plain.clone(), form(2)), single(plain.clone(), form(3))])
     };
+    // a multi-glyph lookup INSIDE a positional feature: medi also lists a ligature <letter0.medi, letter0.fina> -> glyph
+    // 1 + 5n.  Its second component is a final letter, which does not carry the medi mask, so the ligature must never form
+    // (every glyph of a match must carry the mask of the feature being applied); if it does, the output has an unknown glyph
+    let (mut feats, mut lookups) = (feats, lookups);
+    lookups.push(Lookup::one(SubstSubtable::Ligature { coverage: Coverage::Glyphs(vec![form(2)[0]]), ligature_sets: vec![vec![Ligature { glyph: 1 + 5 * n, components: vec![form(3)[0]] }]] }));
+    let li = (lookups.len() - 1) as u16;
+    feats.iter_mut().find(|f| &f.0 == b"medi").unwrap().1.push(li);
     let mut layout = Layout::with_features(feats, lookups);
     let all = LangSys { required_feature: None, feature_indices: (0..4).collect() };
     layout.scripts = vec![ScriptRecord { tag, default_langsys: Some(all), langsys: Vec::new() }];
